@@ -40,6 +40,7 @@ def main():
         # 1. regenerate the parts of the model that come from /repo (lock held until the audit is done,
         #    so that a concurrent check of another tree cannot swap Generated/ under the build)
         ctx.lean.locked()
+        unlocked = False
         try:
             extract.regenerate(ctx)
         except Exception as e:   # the working tree cannot even be imported/extracted
@@ -64,12 +65,15 @@ def main():
             if aok and not hits:
                 discharged = obligations
             if not ctx.quick and getattr(mod, "LEANCHECKER", True):
+                ctx.lean.unlock()          # the long re-check must not hold up other checks
+                unlocked = True
                 p = subprocess.run(["lake", "env", "leanchecker", *mod.LEAN_MODULES], cwd=core.LEAN,
                                    capture_output=True, text=True, timeout=3000)
                 ctx.extra["leanchecker"] = "ok" if p.returncode == 0 else (p.stdout + p.stderr)[-300:]
                 if p.returncode != 0:
                     ctx.broken.append("leanchecker rejected the compiled modules")
-        ctx.lean.unlock()
+        if not unlocked:
+            ctx.lean.unlock()
         # 4. correspondence + property oracle on the real code
         try:
             mod.run(ctx)
